@@ -78,11 +78,18 @@ pub struct Cmp {
     pub worst: f64,
     pub exact_parts: usize,
     pub checked_parts: usize,
+    /// worst error/(u e) per derivative order
+    pub worst_by_order: [f64; 8],
 }
 
 /// Compare every part of a library value (flat) with the reference jet.
 /// `kfac`: multiple of u*e allowed; `demand_exact`: parts whose reference is exact must agree bit for bit.
 pub fn compare<F: Flt>(lay: &Layout, alg: &Arc<Alg>, lib: &Flat, rf: &Jet, kfac: f64, demand_exact: bool, what: &str) -> Cmp {
+    compare_with::<F>(lay, alg, lib, rf, &|_| kfac, demand_exact, what)
+}
+
+/// like `compare`, with a tolerance factor depending on the derivative order of the part
+pub fn compare_with<F: Flt>(lay: &Layout, alg: &Arc<Alg>, lib: &Flat, rf: &Jet, kf: &dyn Fn(u8) -> f64, demand_exact: bool, what: &str) -> Cmp {
     let mut c = Cmp::default();
     const U64: f64 = 1.1102230246251565e-16;
     for (i, s) in lay.slots.iter().enumerate() {
@@ -107,13 +114,18 @@ pub fn compare<F: Flt>(lay: &Layout, alg: &Arc<Alg>, lib: &Flat, rf: &Jet, kfac:
             ));
             return c;
         }
+        let kfac = kf(s.order);
         let tol = kfac * F::U * r.e + F::FLOOR;
         let diff = (l - r.v).abs();
         c.checked_parts += 1;
-        if r.e > 0.0 {
+        if r.e > 0.0 && F::U * r.e > 10.0 * F::FLOOR {
             let ratio = diff / (F::U * r.e);
             if ratio > c.worst {
                 c.worst = ratio;
+            }
+            let o = (s.order as usize).min(7);
+            if ratio > c.worst_by_order[o] {
+                c.worst_by_order[o] = ratio;
             }
         }
         if diff > tol {
